@@ -263,6 +263,68 @@ fn run_l<L: Language + 'static, N: Analysis<L> + Default + 'static>(c: &ProbeCas
     Ok(())
 }
 
+// ---- insertion on e-graphs whose analysis asserts equations itself (modify hook) ----
+
+fn run_modify(c: &ProbeCase, obs: &mut Obs) -> Result<(), String> {
+    use crate::analyses::WrapElim;
+    let nm = &c.base.naming;
+    let mut eg: EGraph<Core, WrapElim> = new_egraph(WrapElim, false);
+    let slot_set = |a: &AppliedId| -> BTreeSet<Slot> { a.slots().iter().copied().collect() };
+    let mut merged_on_arrival = 0usize;
+    let st = drive::<Core, WrapElim>(&c.base, &mut eg, &mut |eg, st, op| {
+        if let MOp::Add(t) | MOp::AddSyn(t) = op {
+            // the invocation an insertion returns already omits the slots its class does not have
+            let a = st.handles.last().unwrap();
+            let f = eg.find_applied_id(a);
+            if f.id != a.id {
+                merged_on_arrival += 1;
+            }
+            if slot_set(a) != slot_set(&f) {
+                return Err(format!("inserting {} returned {:?}, whose slots differ from those of its canonical form {:?}", t.render(nm), a, f));
+            }
+            if !eg.eq(a, &f) {
+                return Err(format!("inserting {} returned {:?}, which is not equal to its own canonical form {:?}", t.render(nm), a, f));
+            }
+        }
+        Ok(())
+    })?;
+    let tracked = st.handles.clone();
+    for p in &c.probes {
+        let Some((t, _must, kind)) = probe_term(c, p, 4) else { continue };
+        let re = parse_tm::<Core>(&t, nm);
+        let a = eg.add_expr(re.clone());
+        let f = eg.find_applied_id(&a);
+        obs.cmp(4);
+        if slot_set(&a) != slot_set(&f) {
+            return Err(format!("add({}) ({kind}) returned {:?}, whose slots differ from those of its canonical form {:?}", t.render(nm), a, f));
+        }
+        let fv: BTreeSet<Slot> = t.fv().into_iter().map(|n| slot_of(n, nm)).collect();
+        if !slot_set(&a).is_subset(&fv) {
+            return Err(format!("add({}) returned {:?} whose slots are not free names of the term", t.render(nm), a));
+        }
+        // now the term is represented: lookup finds it, a second insertion creates nothing and returns the same thing
+        let fp1 = fingerprint(&eg, &tracked);
+        let Some(r) = lookup_rec_expr(&re, &eg) else { return Err(format!("{} was just inserted but lookup fails", t.render(nm))) };
+        if !eg.eq(&r, &a) || slot_set(&r) != slot_set(&a) {
+            return Err(format!("add({}) returned {:?} but lookup returns {:?}", t.render(nm), a, r));
+        }
+        let a2 = eg.add_expr(re);
+        let fp2 = fingerprint(&eg, &tracked);
+        if fp1 != fp2 {
+            return Err(format!("inserting {} a second time changed the e-graph: {:?} -> {:?}", t.render(nm), fp1, fp2));
+        }
+        if !eg.eq(&a2, &a) || slot_set(&a2) != slot_set(&a) {
+            return Err(format!("add({}) returned {:?} the first time and {:?} the second time", t.render(nm), a, a2));
+        }
+        obs.label(kind);
+    }
+    if merged_on_arrival > 0 {
+        obs.label("class-merged-away-during-its-own-insertion");
+        obs.nontrivial = true;
+    }
+    Ok(())
+}
+
 fn strategy(lang: LangId, max_ops: usize) -> BoxedStrategy<ProbeCase> {
     let mut cfg = MixedCfg { max_ops, allow_extraction_subst: false, ..MixedCfg::for_lang(lang) };
     cfg.hist.namings = Naming::diverse();
@@ -632,6 +694,35 @@ pub fn property(tier: Tier) -> Property {
             panic_is_violation: false,
             render,
             rule: "as probe-core, on e-graphs that carry an analysis (smallest term size) whose data change in unions and rewrites",
+            case_timeout_s: tier.pick(30, 120),
+            exhaustive: false,
+        }));
+    }
+    {
+        let max_ops = tier.pick(8, 12);
+        stages.push(Box::new(Stage {
+            name: "probe-core-modify-hook",
+            source: random(
+                move || {
+                    let mut cfg = MixedCfg { max_ops, allow_extraction_subst: false, ..MixedCfg::for_lang(LangId::Core) };
+                    cfg.hist.namings = Naming::diverse();
+                    cfg.hist.gen.ops = Some(vec!["v", "f2", "g3", "c0", "w", "w", "w", "p", "lam"]);
+                    let sig = LangId::Core.sig();
+                    let gcfg = cfg.hist.gen.clone();
+                    let probe = crate::one_of![
+                        2 => any::<u16>().prop_map(Probe::Literal),
+                        2 => any::<u16>().prop_map(Probe::Alpha),
+                        2 => (any::<u16>(), any::<u8>()).prop_map(|(i, k)| Probe::Renamed(i, k)),
+                        4 => proptest::collection::vec(any::<u16>(), 0..30).prop_map(move |ch| Probe::Fresh(cap_fv(&gen_tm(&sig, &gcfg, &mut Src::new(&ch), 0), 3))),
+                    ];
+                    (mixed_strategy(cfg), proptest::collection::vec(probe, 1..6), any::<u8>()).prop_map(|(base, probes, rot)| ProbeCase { base, probes, rot }).boxed()
+                },
+                tier.pick(2500, 50_000),
+            ),
+            run: run_modify,
+            panic_is_violation: false,
+            render,
+            rule: "a reachable e-graph with an analysis whose modify hook asserts w(w(x)) = x by a union of its own (terms rich in w), then probe terms: every invocation returned by an insertion - in the history and for the probes - has exactly the slots of its canonical form and is equal to it, its slots are free names of the term, lookup afterwards returns an equal invocation with the same slots, a second insertion changes nothing and returns the same; non-trivial = some insertion's new class was merged away during that insertion",
             case_timeout_s: tier.pick(30, 120),
             exhaustive: false,
         }));
